@@ -13,7 +13,8 @@ def jobs(tier):
             t = "quick" if d == 2 else "thorough"       # ARM: extension maps (assert(extension_map[uch] != NULL))
             js += B.line_level(Job, d, cfg, t)
             js.append(B.framing(Job, d, cfg, t))
-            js.append(B.table(Job, d, cfg, "thorough" if d != 0 else "quick"))
+            if cfg is B.CFG_NDEBUG:
+                js.append(B.table(Job, d, cfg, "thorough" if d != 0 else "quick"))
         js.append(B.set_dialect(Job, cfg))
         js.append(B.wrapped_main(Job, cfg))      # the default dialect is set in both configurations
         js.append(B.real_main(Job, cfg))
@@ -27,6 +28,6 @@ def jobs(tier):
 META = {
     "trusted_base": B.BASIC_TRUSTED,
     "assumptions": [],
-    "outside": ["functions outside the verified set (their asserts are only covered by the clang-tidy bugprone-assert-side-effect supporting fact)"],
+    "outside": ["build_mapping with its own assert()s enabled: the L1 table job exceeds 14 GB in the assertions-on configuration (undecided there; its asserts have no side effects: clang-tidy supporting fact)", "functions outside the verified set (their asserts are only covered by the clang-tidy bugprone-assert-side-effect supporting fact)"],
     "explanation": "every harness is run with and without -DNDEBUG against the same contracts",
 }
